@@ -96,6 +96,11 @@ CHECKS = {
             'Runner.tla enumerates benchmark-runner programs, each executed three times on seeded benchmark state factories',
             'Two-run relation: the specification contributes the enumeration of schedules / runner programs and the equality judgement; A = C for every algorithm, A # D for randomised algorithms on spaces with more than 8 points.',
             'Fresh-subprocess and wall-clock perturbations are not run in quick; GP designers not run.'),
+    'C15': (EX, '5 C15', 'Converter.tla: TLC enumerates 576 converter configurations (12 parameter shapes x scale x one-hot x OOV padding x continuify threshold x dtype) and computes the discrete '
+            'structure (continuified?, column count, hot column); the real DefaultModelInputConverter / TrialToArrayConverter / DefaultModelOutputConverter are exercised and TLC judges the observations on order keys',
+            'model_checking flavour for the discrete half (exhaustive over catalog x options x every feasible point), exploration for the continuous clauses (round trip within tolerance, unit interval, '
+            'monotone orientation with end points 0 and 1, exactly-one-hot rows, decoding of 12 arbitrary arrays incl. +-1e9 into the space, label round trip under both sign conventions).',
+            'Magnitudes from the catalog; jnp_converters padding and ProblemAndTrialsScaler are not covered.'),
 }
 
 PENDING = {
